@@ -23,6 +23,9 @@ CLAIMS = {
  "C06": dict(level="fault_enumeration", technique="crash-point enumeration over the recorded storage write log of generated histories (every prefix / all prefixes inside multi-write operations), each image opened by the real code and compared with the reference model; restart walk differential",
    text="A generated history is run once recording the ordered write log of both databases; every prefix (quick: all prefixes strictly inside multi-write operations, others sampled; thorough: all) is a crash image on which ledger and state are opened by the real code and checked with the C04 / C01 / C02 oracles, and Walk(ledger tip) must reach the uninterrupted run's state.",
    note="Trusts LevelDB batch atomicity and that a crash loses a suffix of the write sequence; write granularity is the kvdb interface (puts, deletes, batches)."),
+ "C07": dict(level="exploration", technique="schema-walking (protobuf reflection) single-field mutation of accepted transactions in all forms + signature / signer mutations + forged-spend candidates, against the real VerifyTx / SubmitTx; digest injectivity registry",
+   text="Valid transactions in every form (v1-v3, AK, multi-signer, account initiator, account-owned input, aggregated XuperSign, transfers and contract calls incl. contract-spent inputs) are built on a real node; every single-field mutation reachable by walking the message schema, every signature corruption / swap / replay / re-signing and forged spends of outputs whose owner never signs are tried with the stale and the recomputed txid: a mutant of a covered field must change the digest and be rejected; a reference model of which signature slots the verifier actually needs decides signature-slot mutants.",
+   note="Covered set fixed from the statement and checked against encode.go / txhash.go; multi-field collisions of the legacy v1/v2 digest, semantically null re-encodings and signature malleability that keeps the signature valid (trailing DER byte, redundant slots) are not asserted; one known finding (rogue-key attack on the aggregated multi-signature) excluded by shape."),
  "C08": dict(level="exploration", technique="property-based generation of node-formatted blocks + deterministic enumeration of every single mutation of header / body / signature; differential against an independent merkle implementation",
    text="Blocks formatted by a real ledger (0..9 transactions, with / without justify, failed-tx map, PoW bits, all ring keys) must verify; each of ~160 single mutations per block (every hashed header field with stale and recomputed id, body add / drop / dup / swap / replace / alter, signature and key variants) must be rejected by VerifyBlock - or, for a transaction altered under an unchanged txid, by the per-transaction id check; the merkle root is compared with an independent implementation for counts 1..33.",
    note="Fields the id does not claim to cover (Height, MerkleTree inner nodes, InTrunk, NextHash, failed-tx keys, non-positive TargetBits) and consistent re-signing by another proposer are not required to be rejected; 0-transaction blocks are not asserted (real blocks always carry the award)."),
